@@ -65,6 +65,7 @@ type Violation struct {
 type report struct {
 	Worker       int              `json:"worker"`
 	Evaluations  int64            `json:"evaluations"`
+	Items        int64            `json:"items"` // Distinct() calls: oracle-judged items (a case may judge several)
 	Counters     map[string]int64 `json:"counters"`
 	Samples      []any            `json:"samples"`
 	Violations   []Violation      `json:"violations"`
@@ -145,6 +146,7 @@ func (w *Worker) Distinct(key string) {
 	h := fnv.New64a()
 	h.Write([]byte(key))
 	w.mu.Lock()
+	w.rep.Items++
 	if len(w.distinct) < 400000 {
 		w.distinct[h.Sum64()] = struct{}{}
 	}
@@ -671,7 +673,15 @@ func parentMain(spec *Spec) int {
 			}
 		}
 		if haveReport {
-			merged.Evaluations += rep.Evaluations
+			// A case may judge several items (rounds, operations, sub-cases),
+			// each registered through Distinct(): evaluations counts the
+			// oracle-judged items, top-level cases are reported as "cases".
+			merged.Items += rep.Evaluations
+			if rep.Items > rep.Evaluations {
+				merged.Evaluations += rep.Items
+			} else {
+				merged.Evaluations += rep.Evaluations
+			}
 			for k, v := range rep.Counters {
 				if strings.HasPrefix(k, "max_") {
 					maxCounters[k] = true
@@ -782,6 +792,7 @@ func parentMain(spec *Spec) int {
 	// Evidence.
 	cov := map[string]any{
 		"evaluations":         merged.Evaluations,
+		"cases":               merged.Items,
 		"distinct_nontrivial": len(distinct),
 		"rule":                spec.Rule,
 		"samples":             merged.Samples,
